@@ -34,6 +34,35 @@ static gen::Csr special_matrix(int shape, long n, uint64_t ms) {
     return b.finish();
 }
 
+
+// Reference ILU(k) (level rule of the library: lev = max(lev_ik, lev_kj) + 1, entries of A have level 0), textbook form: a row is
+// eliminated in a dense work array, levels take the minimum over all updates, entries above level k are dropped at the END of the
+// row.  The library drops an update aimed at a not yet existing position at once; the two agree unless a position that had
+// collected an above-k update is admitted later ("late admission"; recorded deviation, DESIGN 5.3 row 11) - those worlds are skipped.
+struct RefIluk { Eigen::MatrixXd LU; bool late = false; bool breakdown = false; long fill = 0, lowered = 0; };
+static RefIluk ref_iluk(const gen::Csr &A, int k) {
+    const long n = A.n; const int INF = 1 << 28; RefIluk r;
+    std::vector<long double> F((size_t)n * n, 0.0L); std::vector<int> lev((size_t)n * n, INF);      // F holds L (strict lower, multipliers) and U (upper incl. diagonal)
+    for (long i = 0; i < n; ++i) for (ptrdiff_t j = A.ptr[i]; j < A.ptr[i+1]; ++j) { F[(size_t)i * n + A.col[j]] += A.val[j]; lev[(size_t)i * n + A.col[j]] = 0; }
+    for (long i = 0; i < n; ++i) {
+        long double *row = &F[(size_t)i * n]; int *lr = &lev[(size_t)i * n];
+        for (long c = 0; c < i; ++c) {
+            if (lr[c] > k) continue;                                   // not (or not yet) admitted: no multiplier
+            long double piv = F[(size_t)c * n + c]; if (piv == 0) { r.breakdown = true; return r; }
+            long double m = row[c] / piv; row[c] = m;
+            for (long j = c + 1; j < n; ++j) { int lu = lev[(size_t)c * n + j]; if (lu > k) continue;
+                int nl = std::max(lr[c], lu) + 1;
+                row[j] -= m * F[(size_t)c * n + j];
+                if (nl < lr[j]) { if (lr[j] != INF && lr[j] > k && nl <= k) r.late = true; if (lr[j] != INF && lr[j] <= k) ++r.lowered; lr[j] = nl; } }
+        }
+        for (long j = 0; j < n; ++j) { if (lr[j] > k) { if (lr[j] != INF && j < i) { /* an above-k entry left of the diagonal was never used as a multiplier */ } row[j] = 0; lr[j] = INF; } else if (lr[j] > 0) ++r.fill; }
+        if (row[i] == 0) { r.breakdown = true; return r; }
+    }
+    r.LU = Eigen::MatrixXd::Zero(n, n);
+    for (long i = 0; i < n; ++i) for (long j = 0; j < n; ++j) { long double s = 0; for (long t = 0; t <= std::min(i, j); ++t) { long double l = t == i ? 1.0L : F[(size_t)i * n + t], u = F[(size_t)t * n + j]; if (t < i && lev[(size_t)i * n + t] > k) l = 0; s += l * u; } r.LU(i, j) = (double)s; }
+    return r;
+}
+
 struct W { gen::Csr A; std::shared_ptr<DMatrix> M; std::vector<double> xs, f, x0; long n; };
 
 template <class R, class P>
@@ -157,6 +186,18 @@ Result execute(const Plan &p) {
             for (long q = 0; q < std::min<long>(k, 3); ++q) { std::vector<char> N((size_t)n * n, 0); for (long i = 0; i < n; ++i) for (long l = 0; l < n; ++l) if (Pk[(size_t)i * n + l]) for (long j = 0; j < n; ++j) if (S[(size_t)l * n + j]) N[(size_t)i * n + j] = 1; Pk.swap(N); }
             lu_identity(rs, false, "pattern-of-A^(k+1)", &Pk);
         };
+        // ILU(k) against the reference factorisation (levels by the library's max rule): same factors, hence the same level-k pattern
+        auto iluk_reference = [&](auto &rs) {
+            if (n > 40 || k > 6) return;
+            RefIluk ref = ref_iluk(w.A, (int)k);
+            if (ref.breakdown) return;
+            if (ref.late) { res.counts["iluk_late_admission_worlds_skipped"]++; return; }
+            Eigen::MatrixXd B = extract(rs, w, true); Eigen::FullPivLU<Eigen::MatrixXd> lu(B); if (!lu.isInvertible()) { res.fail(sig("ilu-level-of-fill-reference", "singular", "extracted M^-1 is singular")); return; }
+            Eigen::MatrixXd LU = lu.inverse() * damping; double tol = 1e-8 * amax * std::max(1.0, 1.0 / lu.rcond() * 1e-8);
+            double worst = 0; long wi = 0, wj = 0; for (long i = 0; i < n; ++i) for (long j = 0; j < n; ++j) { double d = std::fabs(LU(i, j) - ref.LU(i, j)); if (d > worst) { worst = d; wi = i; wj = j; } }
+            if (!(worst <= tol)) res.fail(sig("ilu-level-of-fill-reference", "factors-equal-reference-ILU(k)", fmt("k=%ld: (LU)(%ld,%ld) = %.17g, reference ILU(k) gives %.17g (%ld fill entries, %ld level updates of admitted entries)", k, wi, wj, LU(wi, wj), ref.LU(wi, wj), ref.fill, ref.lowered)));
+            res.counts["iluk_reference_checked"]++; if (ref.lowered) res.counts["iluk_reference_with_lowered_levels"]++; if (ref.fill) res.counts["iluk_reference_with_fill"]++;
+        };
         bool exact_shape = shape != 0;
         switch (rl) {
         case R_JACOBI: { typedef rx::damped_jacobi<DBackend> R; R::params pr; pr.damping = (float)damping; R r(*w.M, pr, bp); fixed_point(r, "damped_jacobi"); record(r); apply_check(r, 2, "damped_jacobi");
@@ -218,7 +259,7 @@ Result execute(const Plan &p) {
             apply_check(rs, 2, #T "-serial"); apply_check(rp, 2, #T); \
             if (PATTERN_OK) lu_identity(rs, false, "pattern-of-A"); if (EXACT_OK) lu_identity(rs, true, "exact-factors-fit"); EXTRA; }
         case R_ILU0: ILU_BLOCK(ilu0, (void)0, true, exact_shape, (void)0) break;
-        case R_ILUK: ILU_BLOCK(iluk, ps.k = pp.k = (int)k, true, exact_shape || k > n, (void)0) break;
+        case R_ILUK: ILU_BLOCK(iluk, ps.k = pp.k = (int)k, true, exact_shape || k > n, iluk_reference(rs)) break;
         case R_ILUP: ILU_BLOCK(ilup, ps.k = pp.k = (int)std::min<long>(k, 3), true, exact_shape, ilup_power_pattern(rs)) break;
         default:     ILU_BLOCK(ilut, ps.p = pp.p = exact_shape ? 1000.0 : 2.0 + (double)k; ps.tau = pp.tau = exact_shape ? 0.0 : 0.01, false, exact_shape, (void)0) break;
         }
